@@ -193,7 +193,9 @@ def sweep(run, gen, focus, thorough):
             vs.append(("a", "u32"))
         vs.append(("v", ob["ty"]))
         cases.append(dict(body="; .arch aarch64 ; " + ob["line"], vars=vs))
-    ok, log = dyn.build(focus, cases)
+    import exprhyg
+    all_cases, twin_ix = exprhyg.extend(cases)
+    ok, log = dyn.build(focus, all_cases)
     if not ok:
         run.violation("broken-correspondence", {"kind": "harness-build", "harness": "dyn"}, "the generated crate using the real dynasm! macro does not build against the working tree",
                       {"log": log[-3000:]}, found_input=False)
@@ -206,6 +208,7 @@ def sweep(run, gen, focus, thorough):
         dreqs.append((case_of[ob["n"]], ([a] if a is not None else []) + [v]))
         dplan.append((ob, a, v))
     dres = dyn.run(focus, dreqs)
+    stats["expression_twins"] = exprhyg.compare(run, focus, focus, all_cases, twin_ix, dreqs, dres)
     accepted = {}
     for (ob, a, v), (idx, vals), (st, b) in zip(dplan, dreqs, dres):
         stats["runtime"] += 1
@@ -343,7 +346,9 @@ def sweep_rv(run, gen, focus, thorough):
     lreqs = ["cl " + ob["header"] + " " + fs[ob["form"]].render(dict(ob["vals"]), runtime={ob["idx"]: str(v)}) for (ob, v) in plan]
     lans = plug(lreqs)
     cases = [dict(body=ob["header"] + " " + ob["line"], vars=[("v", ob["ty"])]) for ob in obs]
-    ok, log = dyn.build(focus + "V", cases)
+    import exprhyg
+    all_cases, twin_ix = exprhyg.extend(cases)
+    ok, log = dyn.build(focus + "V", all_cases)
     if not ok:
         run.violation("broken-correspondence", {"kind": "harness-build", "harness": "dyn-riscv"}, "the generated crate with riscv run-time immediates does not build against the working tree",
                       {"log": log[-3000:]}, found_input=False)
@@ -369,6 +374,7 @@ def sweep_rv(run, gen, focus, thorough):
             dreqs.append((case_of[ob["n"]], [v]))
             dplan.append((ob, v, la))
     dres = dyn.run(focus + "V", dreqs)
+    stats["expression_twins"] = exprhyg.compare(run, focus + "V", focus, all_cases, twin_ix, dreqs, dres)
     rt = {}
     for (ob, v, la), (idx, vals), (st, b) in zip(dplan, dreqs, dres):
         stats["runtime"] += 1
